@@ -43,21 +43,27 @@ ScoreLoop(x, kk, jj, s1, s2) ==       \* 0-based k, kk as in mk_score
     IF kk >= n - 1 THEN s1 - s2
     ELSE IF jj >= n THEN ScoreLoop(x, kk + 1, kk + 2, s1, s2)
     ELSE ScoreLoop(x, kk, jj + 1, IF RLt(x[kk + 1], x[jj + 1]) THEN s1 + 1 ELSE s1, IF RLt(x[jj + 1], x[kk + 1]) THEN s2 + 1 ELSE s2)
-ScoreAlgo(x) == ScoreLoop(x, 0, 1, 0, 0)
+ScoreAlgoLoop(x) == ScoreLoop(x, 0, 1, 0, 0)
+\* the same double loop, one row (fixed k) at a time: s1 - s2 of row k is #{kk > k : x[kk] > x[k]} - #{kk > k : x[kk] < x[k]}
+\* (checked equal to the cell-by-cell loop in MCMannKendall; used on long recorded series)
+RECURSIVE ScoreRows(_, _)
+ScoreRows(x, kk) ==
+    IF kk >= Len(x) THEN 0
+    ELSE Cardinality({jj \in (kk + 1)..Len(x) : RLt(x[kk], x[jj])}) - Cardinality({jj \in (kk + 1)..Len(x) : RLt(x[jj], x[kk])})
+         + ScoreRows(x, kk + 1)
+ScoreAlgo(x) == ScoreRows(x, 1)
 V18Algo(x) ==   \* mk_variance_s: unique values, count each, or the no-ties shortcut
     LET n == Len(x)  xu == Values(x) IN
     IF Cardinality(xu) = n THEN TieTerm(n)
     ELSE LET T(val) == TieTerm(Mult(x, val)) IN TieTerm(n) - SumSet(T, xu)
 
 \* linear-time forms used on long recorded series (checked equal in MCMannKendall)
-RECURSIVE SlopeSeq(_, _, _, _)
-SlopeSeq(x, i, j, acc) ==
-    LET n == Len(x) IN
-    IF i >= n THEN acc
-    ELSE IF j > n THEN SlopeSeq(x, i + 1, i + 2, acc)
-    ELSE SlopeSeq(x, i, j + 1, Append(acc, RDiv(RSub(x[j], x[i]), RInt(j - i))))
+\* all pairwise slopes, row by row (row i: pairs (i, i+1..n)); rows are concatenated, not appended cell by cell
+SlopeRow(x, i) == [d \in 1..(Len(x) - i) |-> RDiv(RSub(x[i + d], x[i]), RInt(d))]
+RECURSIVE SlopeRows(_, _)
+SlopeRows(x, i) == IF i >= Len(x) THEN <<>> ELSE SlopeRow(x, i) \o SlopeRows(x, i + 1)
 SenSlopeSorted(x) ==
-    LET srt == SortSeq(SlopeSeq(x, 1, 2, <<>>), RLt)
+    LET srt == RSort(SlopeRows(x, 1))
         m == Len(srt)
     IN  IF m % 2 = 1 THEN srt[(m + 1) \div 2] ELSE RDiv(RAdd(srt[m \div 2], srt[m \div 2 + 1]), "2")
 TauFast(x) == RDiv(RInt(ScoreAlgo(x)), RInt(NPairs(Len(x))))
